@@ -132,7 +132,25 @@ func runWallet(r *evid.Run, dir string, idx int, cs int64) {
 		class := classes[(idx+a*4+rg.Intn(2))%len(classes)]
 		// what to broadcast: a fresh send, a chained child (spends a pending tx's change at minconf 0),
 		// or a re-publish of an already recorded parent that has unconfirmed descendants
-		mode := []string{"send", "send", "chained-send", "create+publish", "republish-parent"}[rg.Intn(5)]
+		mode := []string{"send", "send", "chained-send", "create+publish", "republish-parent", "send-to-self", "sweep-two-outputs"}[rg.Intn(7)]
+		// two unspent wallet outputs (a payment to self and its change) of one pending transaction
+		var pair []*wh.Coin
+		{
+			byParent := map[chainhash.Hash][]*wh.Coin{}
+			for _, c := range f.SortedCoins() {
+				if c.Change && c.Height == -1 && c.SpentBy == "" && c.Scope == waddrmgr.KeyScopeBIP0086 && c.Acct == 0 {
+					byParent[c.Op.Hash] = append(byParent[c.Op.Hash], c)
+				}
+			}
+			for _, p := range f.Pending {
+				if cs := byParent[p.TxHash()]; len(cs) >= 2 && cs[0].Out.Value+cs[1].Out.Value > 30000 {
+					pair = cs[:2]
+				}
+			}
+		}
+		if mode == "sweep-two-outputs" && pair == nil {
+			mode = "send-to-self"
+		}
 		var changeOps []wire.OutPoint
 		for _, c := range f.SortedCoins() {
 			if c.Change && c.Height == -1 && c.SpentBy == "" {
@@ -157,6 +175,17 @@ func runWallet(r *evid.Run, dir string, idx int, cs int64) {
 				mode = "send"
 			} else if strings.HasPrefix(class, "subscription") || class == "accepted" {
 				class = "rejected-generic"
+			}
+		}
+		// the wallet's own destination address is issued (and subscribed) before the
+		// attempt proper starts
+		var ownPk []byte
+		if mode == "send-to-self" {
+			if own, e := f.W.NewAddress(0, waddrmgr.KeyScopeBIP0086); e == nil {
+				ownPk, _ = txscript.PayToAddrScript(own)
+				ch.Barrier()
+			} else {
+				mode = "send"
 			}
 		}
 		before := f.Snapshot()
@@ -185,6 +214,14 @@ func runWallet(r *evid.Run, dir string, idx int, cs int64) {
 		switch mode {
 		case "send":
 			tx, sendErr = f.W.SendOutputs(outs, nil, 0, 1, 2000, wallet.CoinSelectionLargest, "")
+		case "send-to-self":
+			outs[0] = wire.NewTxOut(int64(30000+rg.Intn(30000)), ownPk)
+			tx, sendErr = f.W.SendOutputs(outs, nil, 0, 1, 2000, wallet.CoinSelectionLargest, "")
+		case "sweep-two-outputs":
+			// a child with TWO inputs from the same unconfirmed parent
+			sc := waddrmgr.KeyScopeBIP0086
+			outs[0].Value = (pair[0].Out.Value + pair[1].Out.Value) / 3
+			tx, sendErr = f.W.SendOutputsWithInput(outs, &sc, 0, 0, 2000, wallet.CoinSelectionLargest, "", []wire.OutPoint{pair[0].Op, pair[1].Op})
 		case "chained-send":
 			op := changeOps[rg.Intn(len(changeOps))]
 			c := f.Coins[op]
@@ -584,7 +621,7 @@ func reoffer(r *evid.Run, f *wh.Funded, rg *rand.Rand, log *[]string, fail func(
 
 func main() {
 	r := evid.New(P, "fault_enumeration")
-	r.Rule("complete funded wallets over the fake backend (plus, at the end of half of the wallets, a PublishTransaction with NO backend attached, which must fail and leave no trace); at every broadcast (fresh SendOutputs, chained send spending a pending transaction's change at minconf 0, CreateSimpleTx + PublishTransaction, re-publish of a recorded parent that has unconfirmed children) one backend answer class is applied, cycling through all of: accepted, already-in-mempool, already-known, already-confirmed, rejected (generic / insufficient fee / mempool conflict) and subscription failure at the 1st and at the 2nd NotifyReceived call of the attempt. Oracle per class from a before/after snapshot (balance at 0 and 1 conf, ListUnspent set, unconfirmed set, leases): failed attempts return an error and leave the snapshot identical (and remove every unconfirmed descendant of a re-published parent, releasing its coins); accepted / already-in-mempool record the transaction exactly once, make its inputs unspendable and count the change once; already-known/confirmed return no error. Re-offer: the synchronous verif hook runs the wallet's rebroadcast with three answer policies (accept all / reject the first offered / reject a random one): every unconfirmed transaction that is not a descendant of a rejected one must be offered exactly once, parents before children, and rejected ones (with descendants) must be forgotten; after restarts the production (detached) trigger is judged once no goroutine is left inside the rebroadcast. Non-trivial = every wallet; distinct = distinct attempt logs.")
+	r.Rule("complete funded wallets over the fake backend (plus, at the end of half of the wallets, a PublishTransaction with NO backend attached, which must fail and leave no trace); at every broadcast (fresh SendOutputs, a payment to one of the wallet's own addresses, a child sweeping BOTH wallet outputs of such an unconfirmed parent, chained send spending a pending transaction's change at minconf 0, CreateSimpleTx + PublishTransaction, re-publish of a recorded parent that has unconfirmed children) one backend answer class is applied, cycling through all of: accepted, already-in-mempool, already-known, already-confirmed, rejected (generic / insufficient fee / mempool conflict) and subscription failure at the 1st and at the 2nd NotifyReceived call of the attempt. Oracle per class from a before/after snapshot (balance at 0 and 1 conf, ListUnspent set, unconfirmed set, leases): failed attempts return an error and leave the snapshot identical (and remove every unconfirmed descendant of a re-published parent, releasing its coins); accepted / already-in-mempool record the transaction exactly once, make its inputs unspendable and count the change once; already-known/confirmed return no error. Re-offer: the synchronous verif hook runs the wallet's rebroadcast with three answer policies (accept all / reject the first offered / reject a random one): every unconfirmed transaction that is not a descendant of a rejected one must be offered exactly once, parents before children, and rejected ones (with descendants) must be forgotten; after restarts the production (detached) trigger is judged once no goroutine is left inside the rebroadcast. Non-trivial = every wallet; distinct = distinct attempt logs.")
 	r.Trusted("internal/fakechain", "verif hook wallet.VerifResendUnminedTxs (synchronous call of the unexported method)")
 	r.Assume("already-known / already-confirmed: only 'no error' is asserted (the wallet expects the block notification)", "quiescence of the detached rebroadcast goroutine is decided from goroutine state")
 	dir, _ := os.MkdirTemp("", "c20")
